@@ -6,6 +6,7 @@ import (
 	"errors"
 	"fmt"
 	"io"
+	"net"
 	"strings"
 	"unsafe"
 
@@ -44,6 +45,9 @@ func (e WireEvent) String() string {
 type Net struct {
 	Conns []*Conn
 	Trace []WireEvent
+	// PipeErrors: a locally closed transport reports io.ErrClosedPipe (net.Pipe) instead of the
+	// socket-style *net.OpError wrapping net.ErrClosed.
+	PipeErrors bool
 }
 
 // NewNet creates an empty environment.
@@ -112,8 +116,13 @@ func (e WireEvent) Sent() bool { return e.Dir == '>' && !strings.HasPrefix(e.Not
 // ErrLinkDown is returned by Write on a dead link.
 var ErrLinkDown = errors.New("env: write on broken link (EPIPE)")
 
-// ErrClosed is returned by Read/Write after the local side closed the transport.
-var ErrClosed = errors.New("env: use of closed transport")
+// ErrClosed is returned by Read/Write after the local side closed the transport.  It is shaped like
+// what a real socket returns ("use of closed network connection": a *net.OpError wrapping
+// net.ErrClosed), because library code may inspect it with errors.Is.
+var ErrClosed error = &net.OpError{Op: "read", Net: "mem", Err: net.ErrClosed}
+
+// ErrClosedPipe is the net.Pipe flavour of the same event (Net.PipeErrors).
+var ErrClosedPipe = io.ErrClosedPipe
 
 // Peer receives what the client writes.
 type Peer interface {
@@ -128,6 +137,7 @@ type Conn struct {
 	ID         int
 	Peer       Peer
 	Chunked    bool // deliver every Write in two chunks with a scheduling point in between
+	Stalled    bool // the peer stopped reading and the send buffer is full: Write blocks until the transport is closed locally
 	in         []byte
 	eof        bool
 	closed     bool
@@ -164,7 +174,7 @@ func (c *Conn) Read(p []byte) (int, error) {
 	vrt.AwaitN("Read conn", c.ID, func() bool { return len(c.in) > 0 || c.eof || c.closed })
 	if c.closed {
 		vrt.Event(unsafe.Pointer(c), 0xC1)
-		return 0, ErrClosed
+		return 0, c.closedErr()
 	}
 	if len(c.in) > 0 {
 		n := copy(p, c.in)
@@ -186,13 +196,20 @@ func (c *Conn) Write(p []byte) (int, error) {
 	if c.closed || c.dead || c.eof {
 		// a transmission attempt that cannot reach the peer; still part of the trace (C12 judges attempts)
 		note := NotSent + "write on transport closed by the client fails"
-		err := ErrClosed
+		err := c.closedErr()
 		if !c.closed {
 			note, err = NotSent+"write on dead link fails", ErrLinkDown
 		}
 		pk, _, _ := Decode(cp)
 		c.Net.log(WireEvent{Conn: c.ID, Dir: '>', Pkt: pk, Raw: cp, Note: note})
 		return 0, err
+	}
+	if c.Stalled {
+		pk, _, _ := Decode(cp)
+		c.Net.log(WireEvent{Conn: c.ID, Dir: '>', Pkt: pk, Raw: cp, Note: NotSent + "write blocks: the peer has stopped reading"})
+		vrt.AwaitN("Write (stalled) conn", c.ID, func() bool { return c.closed })
+		vrt.Event(unsafe.Pointer(c), 0xC7)
+		return 0, c.closedErr()
 	}
 	if c.Chunked && len(cp) > 1 {
 		h := len(cp) / 2
@@ -202,7 +219,7 @@ func (c *Conn) Write(p []byte) (int, error) {
 		}
 		vrt.YieldN("Write second chunk conn", c.ID)
 		if c.closed {
-			return h, ErrClosed
+			return h, c.closedErr()
 		}
 		c.Chunks = append(c.Chunks, Chunk{w, 1, cp[h:]})
 		vrt.Event(unsafe.Pointer(c), 0xC3)
@@ -218,6 +235,13 @@ func (c *Conn) Write(p []byte) (int, error) {
 		}
 	}
 	return len(p), nil
+}
+
+func (c *Conn) closedErr() error {
+	if c.Net.PipeErrors {
+		return ErrClosedPipe
+	}
+	return ErrClosed
 }
 
 func (c *Conn) Close() error {
